@@ -390,6 +390,7 @@ def r12_3(prog: Program, rep: Report):
 def r12_4(prog: Program, rep: Report):
     memo = prog.memoised_functions()
     readers: dict[str, list[str]] = {}
+    sources: dict[str, set] = {}
     for q in sorted(memo):
         f = prog.functions.get(q)
         if f is None:
@@ -398,6 +399,7 @@ def r12_4(prog: Program, rep: Report):
         for a in amb:
             where = a.split(" in ")[-1]
             readers.setdefault(where, []).append(q)
+            sources.setdefault(where, set()).add(a)
     # key findings by the memoised function *closest* to the ambient read
     culprits: dict[str, dict] = {}
     for where, callers in sorted(readers.items()):
@@ -411,7 +413,8 @@ def r12_4(prog: Program, rep: Report):
         rep.violated(
             "R12.4", q, prog.functions[q].loc,
             f"memoised, yet its result depends on ambient state read in {sorted(d['readers'])} (call stack / clock / environment): the first caller's answer is served to every later caller; memoised transitive callers: {sorted(d['callers'])[:8]}",
-            {"ambient_readers": sorted(d["readers"]), "memoised_callers": sorted(d["callers"])}, detail="ambient",
+            {"ambient_readers": sorted(d["readers"]), "memoised_callers": sorted(d["callers"]), "sources": sorted(set().union(*(sources.get(w, set()) for w in d["readers"])))},
+            detail=E.ambient_detail(set().union(*(sources.get(w, set()) for w in d["readers"]))),
         )  # fmt: skip
     pure = [q for q in memo if q in prog.functions and not any(q in cs for cs in readers.values())]
     for q in sorted(pure):
